@@ -1,0 +1,15 @@
+//go:build verif
+
+package gcsemu
+
+// Hooks for the verification harness (/verif). Compiled only with the build tag "verif".
+
+// VerifYield, when set, is called at the marked points of the handlers and of the file store
+// with the name of the point; the harness uses it to park the calling goroutine.
+var VerifYield func(point string)
+
+func verifYield(point string) {
+	if h := VerifYield; h != nil {
+		h(point)
+	}
+}
